@@ -48,6 +48,7 @@ def _case(draw, tier):
         (4, ops.dmeta_op(ppool, [f for f in fpool if f is not None])),
         (2, ops.store_op(ppool, 2, allow_none=False, validation=False)),
         (3, ops.delete_op(ppool)),
+        (1, ops.decoy_op(ppool, tuple(fpool))),
         (1, ops.REOPEN))
     return {"cfg": cfg, "contents": [{"hex": "6f31"}, {"hex": "6f32"}], "docs": docs,
             "ops": draw(st.lists(ops.on_instances(op), min_size=2, max_size=30)),
